@@ -162,9 +162,14 @@ impl Relaxation for TRelax {
     }
 }
 
+/// `RK 1` lines of the mdd command switch to a COARSE ranking (every pair of states compares Equal): legal for a StateRanking, it makes the
+/// choice among tied nodes depend on the library's (unstable) sort, so only order-insensitive oracles (the width bound) may be used with it.
+pub static COARSE_RANKING: std::sync::atomic::AtomicBool = std::sync::atomic::AtomicBool::new(false);
 impl StateRanking for TRanking {
     type State = St;
-    fn compare(&self, a: &St, b: &St) -> Ordering { a.0.cmp(&b.0) }
+    fn compare(&self, a: &St, b: &St) -> Ordering {
+        if COARSE_RANKING.load(std::sync::atomic::Ordering::Relaxed) { Ordering::Equal } else { a.0.cmp(&b.0) }
+    }
 }
 
 /// The user's dominance rule: key / coordinates of the *smallest member* of the state.
